@@ -20,16 +20,24 @@ impl<K: KeyT> World<K> {
     fn fail(&mut self, prop: &str, fp: &str, what: String) {
         if !self.cur_born.is_empty() && prop != self.cur_born && self.oracle.len() < 200 {
             let born = self.cur_born;
+            let how = match born {
+                "C12" => "cloning (clone / try_clone / clone_from)",
+                "C06" => "conversion into a reader or resolver",
+                "C13" => "clear()",
+                _ => "deserialisation",
+            };
             self.oracle.push(format!(
-                "{born} deserialized-object-misbehaves:{prop}:{fp} :: on an object obtained by deserialisation: {what} :: case {} ({}) line {}",
+                "{born} derived-object-misbehaves:{prop}:{fp} :: on an object obtained by {how}: {what} :: case {} ({}) line {}",
                 self.case_no, self.case_header, self.line_no
             ));
+            crate::seqrun::journal('O', self.oracle.last().unwrap());
         }
         if self.oracle.len() < 200 {
             self.oracle.push(format!(
                 "{prop} {fp} :: {what} :: case {} ({}) line {}",
                 self.case_no, self.case_header, self.line_no
             ));
+            crate::seqrun::journal('O', self.oracle.last().unwrap());
         }
     }
 
@@ -301,15 +309,18 @@ impl<K: KeyT> World<K> {
                     }
                     "err mem" => {
                         let is_rodeo = matches!(self.slots[si].obj, Obj::Rodeo(_));
-                        if is_rodeo && full {
-                            self.fail("C07", "wrong-error-kind", "memory error although the key space is exhausted (key check comes first)".into());
-                        }
+                        // (which of the two errors is reported when both limits are reached is not part of
+                        // any property: left to the model comparison)
+                        let _ = is_rodeo && full;
                         if stat.is_some() || x.is_empty() {
                             self.fail("C08", "static-or-empty-memory-error", format!("memory error{via_tag} for a static/empty string"));
                         }
                         if let (Some(bm), Some(mx)) = (before_mem, before_max) {
                             if (bm as u128) + (x.len() as u128) <= mx as u128 {
                                 self.fail("C08", "spurious-memory-error", format!("MemoryLimitReached{via_tag} although usage {bm} + len {} <= limit {mx}", x.len()));
+                                if !full {
+                                    self.fail("C07", "spurious-memory-error", format!("interning{via_tag} failed with MemoryLimitReached although neither limit is reached (usage {bm} + len {} <= limit {mx}, {before_len} of {n_cap} keys)", x.len()));
+                                }
                             }
                         }
                         if after_mem != before_mem {
